@@ -1,7 +1,7 @@
 """Group RB: the in-memory ring buffer hands out exactly the window it was asked for."""
 import re
 
-from core import op_local, op_const_bits, strip_crate, strip_generics, place_str
+from core import op_local, op_const_bits, strip_crate, strip_generics, place_str, mem_loc
 from engine import rule
 from flow import flow_of
 from vocab import where
@@ -231,3 +231,224 @@ def rb1(ctx):
                       'get_range returns a window that is not the one asked for (%s; S/E = requested start/end, len(%s.0) = length of the first half of the ring): a record would be read back with bytes missing or with bytes of its neighbours' % ('; '.join(probs), T))
     if n == 0:
         ctx.missing('windows', 'no return of get_range could be read as slices of the two halves of the ring')
+
+
+def _meta_read(b, op, depth=0):
+    """operand op is a read of a RecordMeta field through a reference obtained from the meta vector: returns
+    (field, how, index form) with how = 'index' (`metas[i]`), 'get' (`metas.get(i)` on its Some arm), 'last', 'first';
+    None otherwise. Follows copies."""
+    if op['k'] not in ('copy', 'move') or depth > 8:
+        return None
+    pl = op['place']
+    if not pl['p']:
+        sd = b.single_def(pl['l'])
+        if sd and sd[1] == 'assign' and not sd[2]['place']['p'] and sd[2]['rv']['k'] in ('use', 'cast') and sd[2]['rv']['op']['k'] in ('copy', 'move'):
+            return _meta_read(b, sd[2]['rv']['op'], depth + 1)
+        return None
+    m = mem_loc(pl)
+    if not m or not m.startswith('RecordMeta.'):
+        return None
+    # the reference the field is read through
+    base = {'k': 'copy', 'place': {'l': pl['l'], 'p': []}}
+    hops = 0
+    while hops < 10:
+        hops += 1
+        l = op_local(base)
+        sd = b.single_def(l) if l is not None else None
+        if sd is None:
+            return None
+        if sd[1] == 'call':
+            cs = sd[2]
+            if re.search(r'ops::Index<usize>>::index$', cs.name) and len(cs.args) == 2:
+                return (m.split('.', 1)[1], 'index', b.affine(cs.args[1], phi=True))
+            if re.search(r'::(last|last_mut)$', cs.name):
+                return (m.split('.', 1)[1], 'last', None)
+            if re.search(r'::(first|first_mut)$', cs.name):
+                return (m.split('.', 1)[1], 'first', None)
+            return None
+        if sd[1] != 'assign' or sd[2]['place']['p']:
+            return None
+        rv = sd[2]['rv']
+        if rv['k'] == 'ref':
+            ip = rv['place']
+            if all(e['k'] == 'deref' for e in ip['p']):
+                base = {'k': 'copy', 'place': {'l': ip['l'], 'p': []}}
+                continue
+            return None
+        if rv['k'] in ('use', 'cast') and rv['op']['k'] in ('copy', 'move'):
+            ip = rv['op']['place']
+            if not ip['p']:
+                base = rv['op']
+                continue
+            # `(_10 as Some).0` of a `get(i)` result
+            if len(ip['p']) == 2 and ip['p'][0]['k'] == 'downcast' and ip['p'][1]['k'] == 'field':
+                sd2 = b.single_def(ip['l'])
+                if sd2 and sd2[1] == 'call' and re.search(r'::get(::<usize>)?$', sd2[2].name) and len(sd2[2].args) == 2:
+                    return (m.split('.', 1)[1], 'get', b.affine(sd2[2].args[1], phi=True))
+                if sd2 and sd2[1] == 'call' and re.search(r'::(last|last_mut)$', sd2[2].name):
+                    return (m.split('.', 1)[1], 'last', None)
+                if sd2 and sd2[1] == 'call' and re.search(r'::(first|first_mut)$', sd2[2].name):
+                    return (m.split('.', 1)[1], 'first', None)
+            return None
+        return None
+    return None
+
+
+def _meta_read_alts(b, op, depth=0):
+    """alternatives of operand op (a local assigned on several paths): list of _meta_read results, ('const', v) for a
+    constant, ('other',) for anything else"""
+    if op['k'] == 'const':
+        return [('const', op_const_bits(op))]
+    if op['k'] in ('copy', 'move') and not op['place']['p'] and depth < 6:
+        ds = b.defs.get(op['place']['l'], [])
+        if len(ds) > 1 and all(kind == 'assign' and not data['place']['p'] and data['rv']['k'] in ('use', 'cast') for (_p, kind, data) in ds):
+            out = []
+            for (_p, kind, data) in ds:
+                out.extend(_meta_read_alts(b, data['rv']['op'], depth + 1))
+            return out
+        if len(ds) == 1 and ds[0][1] == 'assign' and not ds[0][2]['place']['p'] and ds[0][2]['rv']['k'] in ('use', 'cast') and ds[0][2]['rv']['op']['k'] == 'const':
+            return [('const', op_const_bits(ds[0][2]['rv']['op']))]
+    r = _meta_read(b, op)
+    return [r] if r is not None else [('other',)]
+
+
+@rule('RB2', ['C01', 'C08'], floor=2, template='provenance')
+def rb2(ctx):
+    """A record handed out by a queue is cut from the payload buffer at ITS OWN bounds: wherever a `Record` is built
+    from `get_range(a..b)` / `get_range(a..)`, `a` is the `start_offset` of the meta whose `position` the record
+    carries, and `b` is the `start_offset` of the meta right after it (index + 1) -- an open end only where there is no
+    next meta (the `None` arm of `get(i + 1)`, or the last meta). One index off, and every record is read back with the
+    bytes of its neighbour, CRCs and positions intact."""
+    n = 0
+    for b in ctx.f.bodies.values():
+        if b.generic_dup() or b.is_test or not b.path.startswith('mem::queue::MemQueue::'):
+            continue
+        grs = [cs for cs in b.calls if cs.path.endswith('RollingBuffer::get_range') and len(cs.args) == 2]
+        if not grs:
+            continue
+        # the Record aggregates and the position they carry
+        recs = []
+        for bi, blk in enumerate(b.blocks):
+            if not b.live[bi]:
+                continue
+            for si, st in enumerate(blk['stmts']):
+                if st['k'] == 'assign' and st['rv']['k'] == 'agg' and strip_crate(st['rv'].get('adt') or '').endswith('mem::queue::Record') or \
+                        (st['k'] == 'assign' and st['rv']['k'] == 'agg' and strip_crate(st['rv'].get('adt') or '') == 'mem::Record'):
+                    recs.append((b.pstart[bi] + si, st['rv']))
+        pos_reads = []
+        for (p, rv) in recs:
+            for o in rv['ops']:
+                mr = _meta_read(b, o)
+                if mr and mr[0] == 'position':
+                    pos_reads.append(mr)
+        for k, cs in enumerate(grs):
+            rl = op_local(cs.args[1])
+            rng = None
+            for o in (b.trace_local(rl) if rl is not None else []):
+                if o[0] == 'rv' and o[2]['k'] == 'agg' and re.search(r'ops::Range(From)?$', o[2].get('adt') or ''):
+                    rng = o[2]
+            if rng is None:
+                continue
+            lo_alts = _meta_read_alts(b, rng['ops'][0])
+            hi_alts = _meta_read_alts(b, rng['ops'][1]) if len(rng['ops']) > 1 else None
+            fl = flow_of(b)
+            def from_metas(op_):
+                return ('m', 'RecordMeta.start_offset') in fl.backward(set(fl.op_nodes(op_))) if op_['k'] in ('copy', 'move') else False
+            pre = []
+            for (nm_, alts_, op_) in (('start', lo_alts, rng['ops'][0]), ('end', hi_alts, rng['ops'][1] if len(rng['ops']) > 1 else None)):
+                if alts_ is None:
+                    continue
+                if any(a_ == ('other',) for a_ in alts_) and from_metas(op_):
+                    pre.append('the %s of the window is computed from meta offsets instead of being one' % nm_)
+                elif len(alts_) > 1 and any(a_[0] != 'const' and a_ != ('other',) for a_ in alts_):
+                    pre.append('the %s of the window is one of several values (%s)' % (nm_, ', '.join('a constant' if a_[0] == 'const' else ('?' if a_ == ('other',) else 'the %s meta\'s %s' % (a_[1], a_[0])) for a_ in alts_)))
+            if pre:
+                n += 1
+                ctx.check(False, '%s:record-window#%d' % (b.path, k + 1), where(b, cs.point), '', 'a record is cut from the payload buffer at the wrong bounds (%s): it would be read back with bytes of its neighbour' % '; '.join(pre))
+                continue
+            lo = lo_alts[0] if len(lo_alts) == 1 and lo_alts[0][0] not in ('const', 'other') else None
+            hi = (hi_alts[0] if len(hi_alts) == 1 and hi_alts[0][0] not in ('const', 'other') else None) if hi_alts is not None else None
+            if lo is None or (len(rng['ops']) > 1 and hi is None):
+                continue        # not read from the metas in a form this rule follows: no verdict
+            n += 1
+            probs = []
+            if lo[0] != 'start_offset':
+                probs.append('the window starts at a meta\'s %s' % lo[0])
+            if hi is not None and hi[0] != 'start_offset':
+                probs.append('the window ends at a meta\'s %s' % hi[0])
+            # same meta as the position
+            same = [pr for pr in pos_reads if pr[1] == lo[1] and pr[2] == lo[2]]
+            if pos_reads and not same:
+                probs.append('the window starts at another meta than the one whose position the record carries')
+            if hi is not None:
+                if lo[1] == 'index' and hi[1] in ('get', 'index') and lo[2] is not None and hi[2] is not None:
+                    d = dict(hi[2][0])
+                    for (k_, c_) in lo[2][0].items():
+                        d[k_] = d.get(k_, 0) - c_
+                    if any(d.values()) or hi[2][1] - lo[2][1] != 1:
+                        probs.append('the window ends at the start of meta [i%+d], not of the next one' % (hi[2][1] - lo[2][1]) if not any(d.values()) else 'the window ends at a meta unrelated to the one it starts at')
+                else:
+                    probs.append('the end of the window is not read from the meta right after the one it starts at')
+            else:
+                # open end: only where there is no next meta
+                if lo[1] == 'index':
+                    nxt = [c for c in b.calls if re.search(r'::get(::<usize>)?$', c.name) and c.dest_local() is not None]
+                    ok_none = False
+                    for c in nxt:
+                        for (bi, pl, adt, edges) in b.discr_switches():
+                            if pl['l'] == c.dest_local() and 'None' in edges and b.edge_dominates(edges['None'], cs.point):
+                                af = b.affine(c.args[1], phi=True)
+                                if af is not None and lo[2] is not None and af[0] == lo[2][0] and af[1] - lo[2][1] == 1:
+                                    ok_none = True
+                    if not ok_none and lo[2] is not None:
+                        # ... or under a test of `i + 1` against a bound (`i + 1 >= len`, the length possibly captured from
+                        # the enclosing function: its origin is not visible from inside a closure, the test is)
+                        for bj, blk2 in enumerate(b.blocks):
+                            if not b.live[bj] or blk2['term']['k'] != 'switch':
+                                continue
+                            c_ = b.switch_cond(bj)
+                            if not c_ or c_['kind'] != 'bool':
+                                continue
+                            for o in c_['origin']:
+                                if o[0] == 'rv' and o[2]['k'] == 'binop' and o[2]['op'] in ('Lt', 'Le', 'Gt', 'Ge', 'Eq', 'Ne'):
+                                    for side in (o[2]['a'], o[2]['b']):
+                                        af = b.affine(side, phi=True)
+                                        if af is not None and af[0] == lo[2][0] and af[1] - lo[2][1] == 1:
+                                            e_ = b.bool_edges(bj)
+                                            if e_ and (b.edge_dominates(e_[0], cs.point) or b.edge_dominates(e_[1], cs.point)):
+                                                ok_none = True
+                    if not ok_none:
+                        probs.append('an open-ended window is cut for a meta that is not known to be the last one')
+                elif lo[1] != 'last':
+                    probs.append('an open-ended window is cut for a meta that is not the last one')
+            ctx.check(not probs, '%s:record-window#%d' % (b.path, k + 1), where(b, cs.point), 'the record is cut at its own start offset and at the start offset of the next meta',
+                      'a record is cut from the payload buffer at the wrong bounds (%s): it would be read back with bytes of its neighbour' % '; '.join(probs))
+    if n == 0:
+        ctx.missing('windows', 'no get_range call of MemQueue could be read as a window between two record metas')
+
+
+@rule('MA6', ['C16'], floor=2, template='provenance')
+def ma6(ctx):
+    """The payload buffer reports what it HOLDS: `RollingBuffer::len()` is the length of its byte container and
+    `capacity()` its capacity -- nothing added (a logical offset kept for "stable" positions, a counter of bytes ever
+    appended). `MemQueue::size()` / `capacity()` take these figures for "bytes held": an offset that grows with every
+    partial truncation makes memory_used_bytes grow without bound, above memory_allocated_bytes."""
+    n = 0
+    ret = {'k': 'copy', 'place': {'l': 0, 'p': []}}
+    for (fn, meth) in (('len', 'len'), ('capacity', 'capacity')):
+        bs = ctx.fn('mem::rolling_buffer::RollingBuffer::%s' % fn)
+        if not bs:
+            continue
+        b = bs[0]
+        alts = b.affine_alts(ret)
+        if alts is None:
+            alts = [b.affine(ret, phi=True)] if b.affine(ret, phi=True) is not None else None
+        af = b.affine(ret, phi=True)
+        if af is None:
+            continue
+        n += 1
+        good = af[1] == 0 and len(af[0]) == 1 and all(k_[0] == 'call' and re.search(r'VecDeque::<u8>::%s$|VecDeque::::%s$' % (meth, meth), k_[1]) and c_ == 1 for (k_, c_) in af[0].items())
+        ctx.check(good, 'RollingBuffer::%s:is-the-container' % fn, b.span, 'RollingBuffer::%s() is the %s of the byte container' % (fn, meth),
+                  'RollingBuffer::%s() answers %s, not the %s of the byte container: the memory figures built on it count bytes that are not held' % (fn, _show(af), meth))
+    if n < 2:
+        ctx.missing('accessors', 'RollingBuffer::len / capacity not readable as affine forms (%d of 2)' % n)
